@@ -365,27 +365,51 @@ example : ∃ s, Reach code (Cfg.ofBatch 10 2) s ∧ s.results = [.ctxErr, .batc
     [.srcRet (.item 7), .prodSend, .fullRet false, .nextCall true, .announce, .ctxExpire, .consCtx,
      .srcRet (.item 8), .prodSend, .fullRet true, .nextCall true, .deliver] rfl, by decide⟩
 
-/-- **Close always returns.** `Close` is `bgCancel(); wg.Wait()` over two goroutines. Once the
-background context is cancelled: it stays cancelled, every step of the producer, the batcher or the
-runtime strictly decreases `measure` (so only finitely many can happen), and a state in which none is
-enabled has both goroutines finished and `wg.Wait()` returned. Assumptions: the user's `full`
-returns (`hfull`) and the source's `Next` honours `bgCtx` (the `prodCancelled` step). That `Close` is
-`bgCancel(); wg.Wait()` over two goroutines is `code_order_facts`; first conjunct: `Close`, `flush`
-and `stopTimer` contain no other statement — nothing that could block — (regenerated control
-skeletons). -/
+/-- **Close always returns.** `Close` is `bgCancel(); wg.Wait()` over two goroutines
+(`code_order_facts`). What is proved, for every reachable state in which `bgCancel()` has run
+(`Close` is taken between consumer calls only: the Stream contract, listed as an assumption):
+
+(0) regenerated facts this rests on: `Close`, `flush` and `stopTimer` consist of the statements the
+    model has and no others (control skeletons); `bgCtx` is what the source's `Next` is given and what
+    the hand-off and `flush` select on (`Code.BgTied`); `stopTimer`'s only blocking-looking statement,
+    the drain `<-timerC`, is guarded by `!stopped && timerC != nil` — with Go's timers a value is (or
+    is about to be, asynchronous timer channels) in the channel exactly then, so it does not block: a
+    property of the runtime, trusted, not proved here;
+(1) every step of the producer, the batcher or the runtime keeps `bgCtx` cancelled and strictly
+    decreases `measure` (≤ 16);
+(2) **run-level bound**: along *any* run from here — environment steps included — the context stays
+    cancelled and `measure(end) + #internal steps ≤ measure(start) + 4 · #items`, where `#items`
+    counts the labels `srcRet (.item _)` of the run: the only way the environment can raise the
+    measure is a source that still hands out an item after `Close` (it need not look at its context
+    first). So the goroutines take at most `16 + 4 · #items` steps; *if the source hands out only
+    finitely many more items*, only finitely many internal steps can happen. (Without that assumption
+    the statement "only finitely many" is false in the model: `srcRet item; prodSend; fullRet false`
+    is a cycle of constant measure — the batcher's loop has no `<-bgCtx.Done()` arm and keeps
+    receiving, and the producer's `select` may prefer `c <- item` to `<-bgCtx.Done()` for ever.)
+(3) a state in which no internal step is enabled has both goroutines finished and `wg.Wait()`
+    returned (`closeReturned`): the only quiescent state after `Close` is "Close has returned".
+
+Assumptions, all named in `checks/C11.json`: the user's `full` returns (`hfull`); a source `Next`
+blocked on the cancelled `bgCtx` returns (the `prodCancelled` step is internal); after `Close` the
+source hands out only finitely many more items; select fairness between `c <- item` and
+`<-bgCtx.Done()` is *not* needed for (1)–(3) but for "eventually" when the source keeps offering
+items. -/
 theorem batch_close_returns {cfg : Cfg} (hfull : ∀ b, ∃ r, cfg.fullOK b r = true) {s : State}
     (h : Reach code cfg s) (hc : s.bgCancelled = true) :
     (Gen.Skeleton.batchClose = Model.Skeleton.batchClose ∧ Gen.Skeleton.batchFlush = Model.Skeleton.batchFlush ∧
       Gen.Skeleton.batchStopTimer = Model.Skeleton.batchStopTimer ∧ code.BgTied ∧
       Gen.Batch.stopTimerDrainCond = "!stopped && timerC != nil" ∧ Gen.Batch.stopTimerDrainChan = "timerC") ∧
     (∀ l s', l.internal = true → step code cfg s l = some s' →
-      s'.bgCancelled = true ∧ measure s' < measure s) ∧
+      s'.bgCancelled = true ∧ measure s' < measure s ∧ measure s ≤ 16) ∧
+    (∀ ls s', run code cfg s ls = some s' →
+      s'.bgCancelled = true ∧ measure s' + internalCount ls ≤ measure s + 4 * itemCount ls) ∧
     (Quiescent code cfg s → s.ppc = .done ∧ s.bpc = .done ∧ s.closeReturned = true) := by
   have h1 := inv1_reach (reach_good h)
   have h3 := inv3_reach (reach_good h)
   refine ⟨⟨by decide, by decide, by decide, by decide, by decide, by decide⟩, ?_⟩
   rw [code_is_good]
-  exact ⟨fun l s' hl hs => measure_decreases h1 hc hl hs, fun hq => quiescent_closed h3 (hfull _) hc hq⟩
+  exact ⟨fun l s' hl hs => ⟨(measure_decreases h1 hc hl hs).1, (measure_decreases h1 hc hl hs).2, measure_le s⟩,
+    close_run_bound (reach_good h) hc, fun hq => quiescent_closed h3 (hfull _) hc hq⟩
 
 /-- the producer is ahead (blocked handing over item 9 while the batcher holds a full batch nobody
 asked for) when Close is called — the situation of the repaired deadlock -/
@@ -394,6 +418,17 @@ example : ∃ s, Reach code (Cfg.ofBatch 10 2) s ∧ s.bgCancelled = true ∧ s.
   ⟨_, reach_of_run Reach.init
     [.srcRet (.item 7), .prodSend, .fullRet false, .srcRet (.item 8), .prodSend, .fullRet true,
      .srcRet (.item 9), .close] rfl, by decide⟩
+
+/-- why (2) counts items: after `Close` a source that ignores its context hands out item 2, the
+producer's `select` takes `c <- item`, `full` says no — the same control state, the same measure:
+three more steps for one more item -/
+example : ∃ s s', Reach code (Cfg.ofFunc 10) s ∧ s.bgCancelled = true ∧
+    run code (Cfg.ofFunc 10) s [.srcRet (.item 2), .prodSend, .fullRet false] = some s' ∧
+    measure s' = measure s ∧ s'.closeReturned = false ∧ s'.ppc = s.ppc ∧ s'.bpc = s.bpc ∧
+    internalCount [.srcRet (.item 2), .prodSend, .fullRet false] = 2 ∧
+    itemCount [.srcRet (.item 2), .prodSend, .fullRet false] = 1 :=
+  ⟨_, _, reach_of_run Reach.init [.close, .srcRet (.item 1), .prodSend, .fullRet false] rfl,
+   by decide, rfl, by decide, by decide, by decide, by decide, by decide, by decide⟩
 
 /-- **The source is closed exactly once by the time Close returns, never used after, and its Next
 and Close never overlap** (C09): the source's `Close` has been called at most once, exactly once when
